@@ -30,12 +30,37 @@ type version struct {
 	id      string
 	cluster string
 	names   []string
+	tls     string // "" = the cluster's usual material (a, b: certificate+key+client CA; x: none); "ca" = client CA only; "cert" = certificate+key only; "none"
+}
+
+// shape of the TLS material a version carries: which of {serving certificate, client CA} it sets
+func (v *version) shape() (cert, ca bool) {
+	if v == nil {
+		return false, false
+	}
+	_, has := mat[v.cluster]
+	switch v.tls {
+	case "":
+		return has, has
+	case "ca":
+		return false, true
+	case "cert":
+		return true, false
+	}
+	return false, false
+}
+
+// the second search varies the SHAPE of the TLS material (partial material is legal: a cluster may bring only a
+// client CA, or only a serving certificate) over a smaller name alphabet
+var tlsVersions = []version{
+	{"a[x]", "a", []string{"x"}, ""}, {"a(ca)[x]", "a", []string{"x"}, "ca"}, {"a(cert)[x]", "a", []string{"x"}, "cert"}, {"a(none)[x]", "a", []string{"x"}, "none"}, {"a(ca)", "a", nil, "ca"},
+	{"b[y]", "b", []string{"y"}, ""}, {"b(ca)[x]", "b", []string{"x"}, "ca"}, {"b(cert)[Y,z]", "b", []string{"Y", "z"}, "cert"}, {"x", "x", nil, ""},
 }
 
 var versions = []version{
-	{"a", "a", nil}, {"a[x]", "a", []string{"x"}}, {"a[x,y]", "a", []string{"x", "y"}}, {"a[X]", "a", []string{"X"}}, {"a[y]", "a", []string{"y"}},
-	{"b", "b", nil}, {"b[x]", "b", []string{"x"}}, {"b[a]", "b", []string{"a"}}, {"b[y]", "b", []string{"y"}}, {"b[Y,z]", "b", []string{"Y", "z"}},
-	{"x", "x", nil}, // an object whose own name is what others use as a server name
+	{"a", "a", nil, ""}, {"a[x]", "a", []string{"x"}, ""}, {"a[x,y]", "a", []string{"x", "y"}, ""}, {"a[X]", "a", []string{"X"}, ""}, {"a[y]", "a", []string{"y"}, ""},
+	{"b", "b", nil, ""}, {"b[x]", "b", []string{"x"}, ""}, {"b[a]", "b", []string{"a"}, ""}, {"b[y]", "b", []string{"y"}, ""}, {"b[Y,z]", "b", []string{"Y", "z"}, ""},
+	{"x", "x", nil, ""}, // an object whose own name is what others use as a server name
 }
 
 func (v version) object() *proxyv1alpha1.UpstreamCluster {
@@ -43,8 +68,14 @@ func (v version) object() *proxyv1alpha1.UpstreamCluster {
 	o.Spec.Servers = []proxyv1alpha1.UpstreamClusterServer{{Endpoint: "https://127.0.0.1:1"}}
 	o.Spec.ClientConfig.Insecure = true
 	o.Spec.SecureServing.ServerNames = v.names
-	if m, ok := mat[v.cluster]; ok {
-		o.Spec.SecureServing.CertData, o.Spec.SecureServing.KeyData, o.Spec.SecureServing.ClientCAData = m.CertPEM, m.KeyPEM, m.CAPEM
+	m := mat[v.cluster]
+	if cert, ca := (&v).shape(); cert || ca {
+		if cert {
+			o.Spec.SecureServing.CertData, o.Spec.SecureServing.KeyData = m.CertPEM, m.KeyPEM
+		}
+		if ca {
+			o.Spec.SecureServing.ClientCAData = m.CAPEM
+		}
 	}
 	return o
 }
@@ -77,10 +108,10 @@ func resolveAll(s *sys) map[string]*clusters.ClusterInfo {
 	return out
 }
 
-func verByID(id string) *version {
-	for i := range versions {
-		if versions[i].id == id {
-			return &versions[i]
+func verByID(list []version, id string) *version {
+	for i := range list {
+		if list[i].id == id {
+			return &list[i]
 		}
 	}
 	return nil
@@ -95,9 +126,11 @@ func contains(l []string, x string) bool {
 	return false
 }
 
-func spec() xstate.Spec {
+func spec() xstate.Spec { return specOver("tenant-histories", versions) }
+
+func specOver(name string, versions []version) xstate.Spec {
 	return xstate.Spec{
-		Name: "tenant-histories",
+		Name: name,
 		New: func() interface{} {
 			return &sys{rig: ctlrig.New(), latest: map[string]*version{}, applied: map[string]*version{}, pending: map[string]*proxyv1alpha1.UpstreamCluster{}, pendingV: map[string]*version{}}
 		},
@@ -130,7 +163,7 @@ func spec() xstate.Spec {
 				var obj *proxyv1alpha1.UpstreamCluster
 				var requeue bool
 				if f[0] == "apply" {
-					v = verByID(f[1])
+					v = verByID(versions, f[1])
 					cluster = v.cluster
 					obj = v.object()
 					s.latest[cluster] = v
@@ -263,6 +296,21 @@ func cname(ci *clusters.ClusterInfo) string {
 
 var baseCfg = &tls.Config{MinVersion: tls.VersionTLS12}
 
+// tlsShape: which material the resolved cluster's effective object carries. While versions of different shapes
+// compete (a delivery of that cluster is waiting for its requeue, or latest and applied differ) it is not judged.
+func (s *sys) tlsShape(ci *clusters.ClusterInfo) (cert, ca, judged bool) {
+	if ci == nil {
+		return false, false, true
+	}
+	l, a := s.latest[ci.Cluster], s.applied[ci.Cluster]
+	lc, la := l.shape()
+	ac, aa := a.shape()
+	if l == nil || a == nil || s.pendingV[ci.Cluster] != nil || lc != ac || la != aa {
+		return false, false, false
+	}
+	return lc, la, true
+}
+
 func (s *sys) checkTLS(res map[string]*clusters.ClusterInfo) error {
 	get := s.rig.C.WrapGetConfigForClient(func(*tls.ClientHelloInfo) (*tls.Config, error) { return baseCfg, nil })
 	for _, h := range probeHosts {
@@ -275,33 +323,50 @@ func (s *sys) checkTLS(res map[string]*clusters.ClusterInfo) error {
 			return fmt.Errorf("tls-callback-error: %v", err)
 		}
 		ci := res[h]
-		m, has := mat[cname(ci)]
-		if ci == nil || !has {
+		m := mat[cname(ci)]
+		wantCert, wantCA, judged := s.tlsShape(ci)
+		if !judged {
+			continue
+		}
+		if !wantCert && !wantCA {
 			if cfg != baseCfg {
 				return fmt.Errorf("tls-for-unserved-host: host %q is served by %q (no TLS material) but the handshake does not use the gateway's base configuration", h, cname(ci))
 			}
-		} else {
-			if len(cfg.Certificates) != 1 || !bytes.Equal(cfg.Certificates[0].Certificate[0], m.CertDER) {
-				return fmt.Errorf("wrong-serving-certificate: host %q is served by cluster %q but the handshake does not present that cluster's certificate", sni, ci.Cluster)
-			}
-			ok := false
-			if cfg.ClientCAs != nil {
-				for _, sub := range cfg.ClientCAs.Subjects() { //nolint
-					if bytes.Equal(sub, m.CASubject) {
-						ok = true
-					}
+			continue
+		}
+		if wantCert && (len(cfg.Certificates) != 1 || !bytes.Equal(cfg.Certificates[0].Certificate[0], m.CertDER)) {
+			return fmt.Errorf("wrong-serving-certificate: host %q is served by cluster %q but the handshake does not present that cluster's certificate", sni, ci.Cluster)
+		}
+		if !wantCert && len(cfg.Certificates) != 0 {
+			return fmt.Errorf("foreign-serving-certificate: host %q is served by cluster %q, which brings no certificate, but the handshake presents one that is not the gateway's default", sni, ci.Cluster)
+		}
+		ok := false
+		if cfg.ClientCAs != nil {
+			for _, sub := range cfg.ClientCAs.Subjects() { //nolint
+				if bytes.Equal(sub, m.CASubject) {
+					ok = true
 				}
 			}
-			if !ok {
-				return fmt.Errorf("wrong-client-ca: host %q is served by cluster %q but its client-CA pool is not used in the handshake", sni, ci.Cluster)
-			}
+		}
+		if wantCA && !ok {
+			return fmt.Errorf("wrong-client-ca: host %q is served by cluster %q but its client-CA pool is not used in the handshake", sni, ci.Cluster)
+		}
+		if wantCA && cfg.ClientAuth != tls.RequestClientCert {
+			return fmt.Errorf("client-cert-not-requested: host %q is served by cluster %q, which has a client CA, but the handshake does not request a client certificate (ClientAuth=%v)", sni, ci.Cluster, cfg.ClientAuth)
+		}
+		if !wantCA && cfg.ClientCAs != nil {
+			return fmt.Errorf("foreign-client-ca: host %q is served by cluster %q, which brings no client CA, but the handshake announces a client-CA pool", sni, ci.Cluster)
 		}
 	}
 	for _, h := range probeHosts {
 		vo, ok := s.rig.C.SNIVerifyOptions(h)
 		ci := res[h]
-		m, has := mat[cname(ci)]
-		if ci == nil || !has {
+		m := mat[cname(ci)]
+		_, wantCA, judged := s.tlsShape(ci)
+		if !judged {
+			continue
+		}
+		if ci == nil || !wantCA {
 			if ok {
 				return fmt.Errorf("verify-options-for-unserved-host: host %q (served by %q) got client-certificate verification options", h, cname(ci))
 			}
@@ -330,9 +395,11 @@ func main() {
 		"in histories with a refused delivery the 'if and only if' is relaxed to: a host never resolves to a cluster that does not claim it, nobody else's names change, deleted clusters stop resolving; exact 'iff' is demanded while no delivery was refused",
 	}
 	if c.ReplayFile() != "" {
-		xstate.ReplayIfAsked(c, []xstate.Spec{spec()})
+		xstate.ReplayIfAsked(c, []xstate.Spec{spec(), specOver("tls-shapes", tlsVersions)})
 	}
-	c.RunTasks(xstate.Tasks(c, spec(), c.Pick(6, 8), 16))
+	tasks := xstate.Tasks(c, spec(), c.Pick(6, 8), 16)
+	tasks = append(tasks, xstate.Tasks(c, specOver("tls-shapes", tlsVersions), c.Pick(5, 7), 12)...)
+	c.RunTasks(tasks)
 	c.Finish(map[string]interface{}{
 		"states":                        c.Counter("states"),
 		"transitions":                   c.Counter("transitions"),
